@@ -14,12 +14,12 @@ RULE = ('Hypothesis-generated scripts biased to the cache-writing paths (WRITE_C
         'GET_VALUE, with key operands spelling every protected name in every encoding (utf-8, NUL-padded, upper-case, '
         'as ints), nested in all constructs, plus byte soup; initial caches = sigfield subsets + timestamp + 0-3 other '
         'str keys with bytes / int / str / float / list values. Oracle: a recording dict flags any mutation whose key '
-        'is not bytes (except the interpreter\'s own control key "returned"), at any step incl. failed runs; afterwards '
+        'is not bytes, at any step incl. failed runs; afterwards '
         'every embedder entry equals its deep copy (value and type), also in the cache returned by run_script; '
         'GET_MESSAGE / CHECK_TIMESTAMP after the prefix give the fresh-cache result. non-trivial = a cache write whose '
         'key bytes spell a protected name, or >= 3 cache writes; distinct = digest of (script, cache).')
 ASSUMPTIONS = ['no plugin or contract installed (as the property states)',
-               "the str key 'returned' is the interpreter's own control flag and never supplied as embedder data"]
+               ]
 
 
 class RecDict(dict):
@@ -103,7 +103,7 @@ def evaluate(script, emb):
                 if isinstance(e, (KeyboardInterrupt, SystemExit)):
                     raise
                 info['outcome'] = 'err'
-        bad = [(op, k) for op, k in cache.log if not isinstance(k, bytes) and k != 'returned']
+        bad = [(op, k) for op, k in cache.log if not isinstance(k, bytes)]
         if bad:
             op, k = bad[0]
             fails.append(('cache/non-bytes-key-mutated/%s' % op, 'key %r (%s) by script %s' % (k, type(k).__name__, script[:40].hex())))
@@ -118,7 +118,8 @@ def evaluate(script, emb):
         for p in PROTECTED:
             prot.update({p.encode(), p.upper().encode(), p.encode() + b'\x00'})
         info['spelled'] = any(k in prot or k.rstrip(b'\x00') in prot for k in writes)
-        info['returned'] = 'returned' in cache
+        # did the script end through a top-level RETURN? (then instructions appended to it would not run)
+        info['returned'] = bool(getattr(stack, 'returned', False)) or ('returned' in cache and 'returned' not in before)
         # the same through run_script (returned cache)
         with headroom(1000):
             try:
@@ -165,7 +166,7 @@ def check_case(case):
     if case.get('check') != 'run':
         raise ValueError('check')
     emb = case['cache']
-    if not isinstance(emb, dict) or any(not isinstance(k, str) or k == 'returned' for k in emb):
+    if not isinstance(emb, dict) or any(not isinstance(k, str) for k in emb):
         raise ValueError('cache')
     for i in range(1, 9):
         k = 'sigfield%d' % i
@@ -299,7 +300,7 @@ def emb_cache(draw):
             c['sigfield%d' % i] = draw(st.binary(max_size=12))
     c['timestamp'] = draw(st.one_of(st.just(1_700_000_000), st.integers(0, 2 ** 40)))
     for _ in range(draw(st.integers(0, 3))):
-        c[draw(st.sampled_from(['E', 'P', 'x', 'IR', 'sa', 'custom', 'ünï', 'X', 's']))] = draw(VALUES)
+        c[draw(st.sampled_from(['E', 'P', 'x', 'IR', 'sa', 'custom', 'ünï', 'X', 's', 'returned', 'returned']))] = draw(VALUES)
     return c
 
 
